@@ -166,7 +166,9 @@ package ice
 //@   // the cached dictionary is the dictionary of lastField (or there is none because lastField is unknown / nothing was looked up)
 //@   loop 0 invariant[C18] @cached_dict_is_for_last_field dict != nil ==> s.fieldsMap[lastField] > 0 && dict.fieldID == s.fieldsMap[lastField] - 1
 //@   // every lookup goes to the dictionary of the term's own field
-//@   at call:(*Dictionary).postingsList#0 lemma[C18] s.fieldsMap[thisField] > 0 && dict.sb == s && dict.fieldID == s.fieldsMap[thisField] - 1
+//@   at call:(*Dictionary).postingsList#0 lemma[C18] s.fieldsMap[thisField] > 0
+//@   at call:(*Dictionary).postingsList#0 lemma[C18] dict.sb == s
+//@   at call:(*Dictionary).postingsList#0 lemma[C18] dict.fieldID == s.fieldsMap[thisField] - 1
 //@
 //@ // persistFooter appends the 44-byte footer: numDocs, storedIndexOffset, fieldsIndexOffset,
 //@ // docValueOffset (big-endian uint64), chunkMode, version 2, and the CRC-32 that continues
